@@ -242,7 +242,7 @@ def _run_w(ch: Choices, tier: str) -> tuple[Program, dict[str, Any], dict[str, A
 
         return body
 
-    run = run_w(prog, knobs, ch, nworkers=2 + ch.pick("w.n", 2), strategy=ch.choice("w.strategy", ["random", "pct", "random"]),
+    run = run_w(prog, knobs, ch, nworkers=2 + ch.pick("w.n", 2), strategy=ch.choice("w.strategy", ["random", "pct", "random", "stall"]),
                 pct_depth=1 + ch.pick("w.depth", 3), extra_workers=[mk])
     return prog, run, info
 
